@@ -10,19 +10,20 @@ from xml.sax.saxutils import escape, quoteattr
 
 
 class N:
-    __slots__ = ("tag", "attrs", "kids", "text")
+    __slots__ = ("tag", "attrs", "kids", "text", "text_last")
 
-    def __init__(self, tag, attrs=None, kids=(), text=None):
+    def __init__(self, tag, attrs=None, kids=(), text=None, text_last=False):
         self.tag = tag
         self.attrs = dict(attrs or {})
         self.kids = list(kids)
         self.text = text
+        self.text_last = text_last  # render the text AFTER the child elements, on its own indented line
 
     def get(self, k, default=None):
         return self.attrs.get(k, default)
 
     def copy(self):
-        return N(self.tag, dict(self.attrs), [k.copy() for k in self.kids], self.text)
+        return N(self.tag, dict(self.attrs), [k.copy() for k in self.kids], self.text, self.text_last)
 
     def xml(self, indent=0):
         pad = "  " * indent
@@ -33,10 +34,12 @@ class N:
             return f"{pad}<{self.tag}{a}>{escape(self.text)}</{self.tag}>"
         inner = "\n".join(k.xml(indent + 1) for k in self.kids)
         t = escape(self.text) if self.text is not None else ""
+        if self.text_last and self.text is not None:
+            return f"{pad}<{self.tag}{a}>\n{inner}\n{pad}  {t}\n{pad}</{self.tag}>"
         return f"{pad}<{self.tag}{a}>{t}\n{inner}\n{pad}</{self.tag}>"
 
     def key(self):
-        return (self.tag, tuple(sorted(self.attrs.items())), tuple(k.key() for k in self.kids), self.text)
+        return (self.tag, tuple(sorted(self.attrs.items())), tuple(k.key() for k in self.kids), self.text, self.text_last)
 
     def __repr__(self):
         return self.xml().replace("\n", "")
@@ -188,7 +191,7 @@ def leaf_templates():
     def one(tid, group, build):
         t.append(_T(tid, 1, lambda nm, b=build: [b(nm())], group))
 
-    for typ in ("byte", "char", "short", "three", "int", "bool", "bool:short", "E1", "E1:short", "E2", "E3"):
+    for typ in ("byte", "char", "short", "three", "int", "bool", "bool:short", "E1", "E1:short", "E2", "E3", "E3:char", "E1:byte"):
         one(f"int:{typ}", "integers", lambda n, typ=typ: field(n, typ))
     for s in ("P", "V", "U", "K", "O", "F", "W", "KK"):
         one(f"struct:{s}", "structs", lambda n, s=s: field(n, s))
@@ -208,6 +211,9 @@ def leaf_templates():
     one("hcn:char", "hardcoded", lambda n: field(n, "char", "7"))
     one("hcn:str", "hardcoded", lambda n: field(n, "string", "hi"))
     one("hcn:bool", "hardcoded", lambda n: field(n, "bool", "true"))
+    # the literal written AFTER a <comment> child, on its own line (pretty-printed XML)
+    t.append(_T("hc:str-after-comment", 1, lambda nm: [N("field", {"type": "string"}, [N("comment", text="marker")], text="OK", text_last=True)], "hardcoded"))
+    t.append(_T("hc:char-after-comment", 1, lambda nm: [N("field", {"type": "char"}, [N("comment", text="seven")], text="7", text_last=True)], "hardcoded"))
     # literals that need escaping inside a Python string literal: a " b \ c
     t.append(_T("hc:str-esc", 1, lambda nm: [field(None, "string", 'a"b\\c')], "hardcoded"))
     one("hcn:str-esc", "hardcoded", lambda n: field(n, "string", 'q"\\', length="3"))
@@ -256,6 +262,7 @@ def leaf_templates():
     # dummy, framing
     t.append(_T("dummy:char", 1, lambda nm: [dummy("char", "0")], "dummy"))
     t.append(_T("dummy:str", 1, lambda nm: [dummy("string", "N")], "dummy"))
+    t.append(_T("dummy:str-after-comment", 1, lambda nm: [N("dummy", {"type": "string"}, [N("comment", text="filler")], text="NO", text_last=True)], "dummy"))
     t.append(_T("dummy:str-esc", 1, lambda nm: [dummy("string", '\\"')], "dummy"))
     t.append(_T("break", 1, lambda nm: [brk()], "framing"))
     return t
